@@ -110,7 +110,7 @@ Definition sw_calm_stmt (st : stmt) : bool :=
 Definition dcs_calm (c : call) : bool :=
   match c with
   | DcsGet _ | DcsChildren _ | DcsDelete _ | DcsCreate _ _ | DcsSetEph _ _ | Now | Sleep _ | Peek _ | FileWrite _ | FileExists _ | FileRemove _ => true
-  | DcsSet PMaster _ => false
+  | DcsSet PMaster _ | DcsSet PLastSwitch _ => false     (* the two success records *)
   | DcsSet _ _ => true
   | _ => false
   end.
@@ -138,12 +138,11 @@ Proof. unfold stop_timing, now_, dcs_get_time, dcs_delete_. pac; pstmt. Qed.
 Lemma d_log_failure sw : allcalls PP (log_switchover_failure sw).
 Proof. unfold log_switchover_failure, now_, dcs_get_time, dcs_delete_. pac; pstmt. Qed.
 
-Lemma d_finish sw ok : allcalls PP (finish_switchover sw ok).
+Lemma d_finish sw : allcalls PP (finish_switchover sw false).
 Proof.
   unfold finish_switchover. apply allcalls_bind; [apply (c_now P Pnow)|]. intros t.
-  apply allcalls_bind.
-  { destruct (negb ok); [apply d_log_failure|]. destruct (negb _); apply d_stop_timing. }
-  intros _. unfold dcs_delete_, dcs_set_. pac; pstmt.
+  apply allcalls_bind; [apply d_log_failure|].
+  intros _. unfold dcs_delete_, dcs_set_. cbn [negb]. pac; pstmt.
 Qed.
 
 Lemma d_set_ro_once h s : allcalls PP (set_read_only_once h s).
